@@ -61,22 +61,24 @@ def Stream.rewind (s : Stream) : Stream := { s with pos := 0 }
 inductive Source where
   | buffer (b : Bytes)
   | stream (s : Stream)
-  /-- a stream whose `read` returns `Err` (other than `Interrupted`) once `okReads` calls have succeeded, and on every
-      later call (source fault; `seek` keeps working) -/
-  | faulty (s : Stream) (okReads : Nat)
+  /-- a stream whose `read` returns `Err` (other than `Interrupted`, which `read_block_stream` retries transparently and
+      which therefore does not appear in the model) once `okReads` calls have succeeded: on every later call
+      (`once = false`, permanent fault) or on that call only (`once = true`, transient fault: afterwards it is an ordinary
+      stream); `seek` keeps working -/
+  | faulty (s : Stream) (okReads : Nat) (once : Bool)
 deriving Repr
 
 /-- `ObjectDataSource::len`: buffer length / `seek(End(0))` -/
 def Source.len : Source → Nat
   | .buffer b => b.length
   | .stream s => s.bytes.length
-  | .faulty s _ => s.bytes.length
+  | .faulty s _ _ => s.bytes.length
 
 /-- the bytes of the object, however supplied -/
 def Source.bytes : Source → Bytes
   | .buffer b => b
   | .stream s => s.bytes
-  | .faulty s _ => s.bytes
+  | .faulty s _ _ => s.bytes
 
 /-- what the application hands to `ObjectDesc::create_from_buffer / create_from_file / create_from_stream` -/
 inductive Supplied where
@@ -145,7 +147,7 @@ def Enc.new (P : Params) (src : Source) (closable : Bool) : Rs Enc :=
   let src' := match src with
     | .buffer b => Source.buffer b
     | .stream s => Source.stream s.rewind
-    | .faulty s k => Source.faulty s.rewind k
+    | .faulty s k once => Source.faulty s.rewind k once
   match Partition.blockPartitioning P.b P.len P.e with
   | .error w => .error w
   | .ok (aL, aS, nL, nB) =>
@@ -199,18 +201,18 @@ def fillE : Nat → Stream → Nat → Nat → Bytes → Option (Bytes × Stream
       if got.length = 0 then some (acc, st', k) else fillE fuel st' k (want - got.length) (acc ++ got)
 
 /-- `read_block_stream` on a faulty stream: `Err(e) => { log::error!(..); self.read_end = true; return Ok(()) }` -/
-def readBlockFaulty (P : Params) (s : Enc) (st : Stream) (k : Nat) : Option Enc :=
+def readBlockFaulty (P : Params) (s : Enc) (st : Stream) (k : Nat) (once : Bool) : Option Enc :=
   let want := s.blockLength * P.e
   match fillE want st k want [] with
-  | none => some { s with src := .faulty st 0, readEnd := true }
+  | none => some { s with src := (if once then .stream st else .faulty st 0 false), readEnd := true }
   | some (buf, st', k') =>
     if buf.length = 0 then
-      some { s with src := .faulty st' k', readEnd := true }
+      some { s with src := .faulty st' k' once, readEnd := true }
     else
       match Block.new P s.sbn buf with
       | none => none
       | some blk =>
-        some { s with src := .faulty st' k', blocks := s.blocks ++ [blk], sbn := s.sbn + 1, off := s.off + buf.length }
+        some { s with src := .faulty st' k' once, blocks := s.blocks ++ [blk], sbn := s.sbn + 1, off := s.off + buf.length }
 
 /-- `read_block` + the `Err(_) => self.read_end = true` arm of `read_window`.
     (When block creation fails after a stream read, the bytes read stay consumed; nothing observable
@@ -219,7 +221,7 @@ def readBlock (P : Params) (s : Enc) : Enc :=
   let r := match s.src with
     | .buffer c => readBlockBuffer P s c
     | .stream st => readBlockStream P s st
-    | .faulty st k => readBlockFaulty P s st k
+    | .faulty st k once => readBlockFaulty P s st k once
   match r with
   | some s' => s'
   | none => { s with readEnd := true }
